@@ -272,7 +272,7 @@ class _TableFormSection(object):
     # xy
 
     if "x" in section or "y" in section:
-      if not "x" and "y" in section:
+      if not ("x" in section and "y" in section):
         raise ConfigParserException("Did not find both 'x' and 'y' entries whilst parsing the data for section '{}'".format(section_name))
 
       if "xy" in section:
